@@ -323,7 +323,7 @@ func (e *Engine) checkOverflow(st *State, where string) {
 		vals := e.S.Values(ask)
 		for i, o := range pending {
 			if vals[fmt.Sprint(i)] == 0 {
-				culprit = truncate(o.String(), 300)
+				culprit = o.StringLimit(300)
 				break
 			}
 		}
